@@ -651,6 +651,7 @@ func gateReplay(args []string) int {
 	var wg sync.WaitGroup
 	sem := make(chan struct{}, *par)
 	var firstErr error
+	nsA, nsB, nsC := 0, 0, 0
 	for _, rows := range groups {
 		rows := rows
 		// keep rows with the same pre-state together
@@ -712,7 +713,17 @@ func gateReplay(args []string) int {
 						}
 					}
 				}
-				if i%997 == 0 && len(rep.Samples) < 12 {
+				interesting := (row.Mut && row.Admin && len(obs.Ups) > 1 && nsA < 4) || (row.Mut && !row.Admin && row.Req.Hval != "" && nsB < 3) ||
+					(row.Req.Route == "config" && row.Req.Method == "PUT" && obs.Status != 405 && nsC < 3)
+				if interesting && i%7 == 3 && len(rep.Samples) < 12 {
+					switch {
+					case row.Req.Route == "config":
+						nsC++
+					case row.Admin:
+						nsA++
+					default:
+						nsB++
+					}
 					rep.Samples = append(rep.Samples, map[string]interface{}{"cfg": row.Cfg, "lk": row.Lk, "req": row.Req,
 						"table": map[string]interface{}{"status": row.Status, "ups": row.Ups},
 						"observed": obs})
